@@ -382,6 +382,7 @@ class SimEnv:
         self.version = version
         self.quiet = quiet
         self._saved = []
+        self._bases = []
 
     def _set(self, mod, name, value):
         self._saved.append((mod, name, getattr(mod, name, _MISSING)))
@@ -415,6 +416,19 @@ class SimEnv:
                     if val is real:
                         self._set(mod, attr, sim)
                         break
+                # a class of the library derived from one of the real classes (class NumberedQueue(Queue))
+                # was bound to it when the module was imported: give it the simulated base for the run
+                if isinstance(val, type) and getattr(val, '__module__', None) == mname:
+                    bases = tuple(next((sim for real, sim in swap[:14] if b is real and isinstance(sim, type)), b)
+                                  for b in val.__bases__)
+                    if bases != val.__bases__:
+                        try:
+                            old = val.__bases__
+                            val.__bases__ = bases
+                            self._bases.append((val, old))
+                        except TypeError as e:
+                            raise core.HarnessError(f'cannot simulate {val.__name__}, a subclass of a threading / '
+                                                    f'queue class ({e})')
             self._set(mod, 'open', fs.open)
         self._set(m_cu, 'pkg_resources', VersionStub(self.version))
         # a change that reaches for the standard-library names at call time is simulated too: the
@@ -437,6 +451,9 @@ class SimEnv:
         return self
 
     def __exit__(self, *exc):
+        for cls, old in reversed(self._bases):
+            cls.__bases__ = old
+        self._bases = []
         for mod, name, old in reversed(self._saved):
             if old is _MISSING:
                 delattr(mod, name)
@@ -502,3 +519,4 @@ def run_sim(fn, fs, chooser, step_cap=5000, mem_total=64 << 30, cpu_count=4, que
 
 
 reset_library_state()          # first call: takes the snapshot of the library's import-time state
+core.install_thread_guard()    # a thread the simulator does not control, started during a run = harness error
